@@ -1,0 +1,84 @@
+// SPDX-FileCopyrightText: 2026 The Pion community <https://pion.ly>
+// SPDX-License-Identifier: MIT
+
+//go:build verif
+
+package ice
+
+import (
+	"context"
+	"net"
+)
+
+// Exports for the external verification harness (/verif, suite "close", property C08).
+// Built only with -tags verif. Add-only: nothing here is used by the library itself.
+
+// VerifCloseRun submits fn to the agent's task loop exactly as the public API does
+// (a.loop.Run(a.loop, ...)) and waits for it.
+func VerifCloseRun(a *Agent, fn func()) error {
+	return a.loop.Run(a.loop, func(context.Context) { fn() })
+}
+
+// VerifCloseAddLocal adds a local candidate bound to a harness-owned socket (Agent.addCandidate,
+// the gatherers' publication step) under the loop's own context.
+func VerifCloseAddLocal(a *Agent, cand Candidate, conn net.PacketConn) error {
+	return a.addCandidate(a.loop, cand, conn)
+}
+
+// VerifCloseDigest is a comparable digest of the agent state a call "without effect" must not move.
+type VerifCloseDigest struct {
+	Checklist, PairsByID, Pending, Locals, Remotes, Started int
+	NextPairID                                              uint64
+	LocalUfrag, LocalPwd, RemoteUfrag, RemotePwd            string
+	ConnectionState, GatheringState                         int
+	HasSelected                                             bool
+	LoopDone                                                bool
+	URLs                                                    int
+}
+
+// VerifCloseSnapshot reads the digest WITHOUT going through the loop. It is meant to be called
+// after Close returned (the loop goroutine has exited: nothing else owns the state) from the
+// goroutine that issues the later API calls.
+func VerifCloseSnapshot(a *Agent) VerifCloseDigest {
+	st := VerifCloseDigest{
+		Checklist: len(a.checklist), PairsByID: len(a.pairsByID), Pending: len(a.pendingBindingRequests),
+		NextPairID: a.nextPairID,
+		LocalUfrag: a.localUfrag, LocalPwd: a.localPwd, RemoteUfrag: a.remoteUfrag, RemotePwd: a.remotePwd,
+		ConnectionState: int(a.connectionState), GatheringState: int(a.gatheringState),
+		HasSelected: a.getSelectedPair() != nil,
+		URLs:        len(a.urls),
+	}
+	for _, l := range a.localCandidates {
+		st.Locals += len(l)
+	}
+	for _, l := range a.remoteCandidates {
+		st.Remotes += len(l)
+	}
+	a.startedCandidatesMu.Lock()
+	st.Started = len(a.startedCandidates)
+	a.startedCandidatesMu.Unlock()
+	st.LoopDone = a.loop.Err() != nil
+
+	return st
+}
+
+// VerifCloseSelectedPair returns the candidates of the selected pair (nil, nil if none), read
+// from the atomic the data path uses.
+func VerifCloseSelectedPair(a *Agent) (Candidate, Candidate) {
+	p := a.getSelectedPair()
+	if p == nil {
+		return nil, nil
+	}
+
+	return p.Local, p.Remote
+}
+
+// VerifCloseSelectedPairID returns the id of the selected pair (0, false if none).
+func VerifCloseSelectedPairID(a *Agent) (uint64, bool) {
+	p := a.getSelectedPair()
+	if p == nil {
+		return 0, false
+	}
+
+	return p.id, true
+}
